@@ -42,6 +42,9 @@ type LoopSpec struct {
 	// Steps are transition obligations: checked at every back edge of the loop, with iter(e)
 	// denoting the value of e at the head of the iteration; never assumed
 	Steps []*Clause
+	// Exits are obligations on every way out of the loop other than the back edge (a jump to a block
+	// outside the body, or a return inside it), with iter(e) as in Steps; never assumed
+	Exits []*Clause
 }
 
 type Contract struct {
@@ -74,6 +77,7 @@ type Contract struct {
 	Cuts        []*Clause
 	Running     []*Clause
 	AtCalls     []*Clause
+	Marks       []string // call-site patterns: the heap after such a call returns is what marked(e) reads
 	ParamNames  []string
 	ParamTypes  []string
 	ResultNames []string
@@ -114,11 +118,11 @@ type PkgSpec struct {
 }
 
 var clauseKW = map[string]bool{"requires": true, "ensures": true, "modifies": true, "loop": true, "allocates": true,
-	"params": true, "vars": true, "pure": true, "trusted": true, "bounded": true, "assumes": true, "maypanic": true, "checks": true, "trustframe": true, "callers": true, "coupling": true, "model": true, "cut": true, "running": true, "atcall": true}
+	"params": true, "vars": true, "pure": true, "trusted": true, "bounded": true, "assumes": true, "maypanic": true, "checks": true, "trustframe": true, "callers": true, "coupling": true, "model": true, "cut": true, "running": true, "atcall": true, "mark": true}
 
 var headRe = regexp.MustCompile(`^(func|type|lemma|canary|refine)\s+(.*)$`)
 var tagsRe = regexp.MustCompile(`\[(C[0-9]+(?:\s*,\s*C[0-9]+)*)\]`)
-var labelRe = regexp.MustCompile(`^(requires|ensures|assumes|callers|invariant|decreases|step)(\[[^\]]*\])?\s*(.*)$`)
+var labelRe = regexp.MustCompile(`^(requires|ensures|assumes|callers|invariant|decreases|step|exit)(\[[^\]]*\])?\s*(.*)$`)
 
 func parseTags(s string) (string, []string) {
 	m := tagsRe.FindStringSubmatchIndex(s)
@@ -346,6 +350,8 @@ func ParseContractFile(path, pkgPath string) (*PkgSpec, error) {
 			c.Raw = tail
 			cur.AtCalls = append(cur.AtCalls, c)
 			curClause = c
+		case "mark":
+			cur.Marks = append(cur.Marks, strings.TrimSpace(strings.TrimPrefix(text, "mark")))
 		case "running":
 			rest := strings.TrimSpace(strings.TrimPrefix(text, "running"))
 			label := fmt.Sprintf("running%d", len(cur.Running))
@@ -439,6 +445,11 @@ func ParseContractFile(path, pkgPath string) (*PkgSpec, error) {
 					c.Label = fmt.Sprintf("step%d", len(lsp.Steps))
 				}
 				lsp.Steps = append(lsp.Steps, c)
+			} else if c.Kind == "exit" {
+				if c.Label == "" {
+					c.Label = fmt.Sprintf("exit%d", len(lsp.Exits))
+				}
+				lsp.Exits = append(lsp.Exits, c)
 			} else {
 				lsp.Decreases = c
 			}
@@ -733,6 +744,7 @@ func isIdentChar(c byte) bool {
 const helperSrc = `
 func old[T any](x T) T { panic("spec") }
 func iter[T any](x T) T { panic("spec") }
+func marked[T any](x T) T { panic("spec") }
 func __forall(f any) bool { panic("spec") }
 func __exists(f any) bool { panic("spec") }
 func __imp(a, b bool) bool { panic("spec") }
@@ -1066,6 +1078,9 @@ func (e *Engine) GenerateOverlay(ps *PkgSpec, pkg *types.Package, fnByKey map[st
 				emit(c, con, loopParams, "bool")
 			}
 			for _, c := range ls.Steps {
+				emit(c, con, loopParams, "bool")
+			}
+			for _, c := range ls.Exits {
 				emit(c, con, loopParams, "bool")
 			}
 			if ls.Decreases != nil {
